@@ -10,6 +10,7 @@ import (
 	"os/exec"
 	"path/filepath"
 	"reflect"
+	"regexp"
 	"sort"
 	"strings"
 	"unsafe"
@@ -518,6 +519,9 @@ func runC14(c *Ctx) *Replay {
 	p := ps[r.Intn(len(ps))]
 	sc := Scenario{Kind: "concurrent", Prog: p.ID, Extra: map[string]string{}}
 	sc.Extra["layout"] = fmt.Sprint(r.Intn(4))
+	if r.Chance(1, 6) {
+		sc.Extra["semerr"] = fmt.Sprint(1 + r.Intn(len(semanticErrors)))
+	}
 	withImport := r.Chance(2, 3)
 	spare := 0
 	if r.Chance(3, 4) {
@@ -674,6 +678,13 @@ func execConcurrent(n *Node, sc *Scenario) *Violation {
 		cp.Bop = prog.Schema.PrintLayout(schema.Layout{Indent: "\t", Comments: true, Block: lay == 2, CRLF: lay == 3, Trailing: int(lay) % 3})
 		prog = &cp
 	}
+	if k := atoiDefault(sc.Extra["semerr"], 0); k > 0 && int(k) <= len(semanticErrors) {
+		// definitions that parse but cannot be compiled, with SEVERAL candidates for the error
+		// that is reported: which one is named must not depend on map order or history
+		cp := *prog
+		cp.Bop = prog.Bop + "\n" + semanticErrors[k-1]
+		prog = &cp
+	}
 	// prelude: the complementary call (every option flipped) of each task, so that the
 	// scenario itself contains a history of calls with different settings; state that a
 	// first call freezes then conflicts with the tasks in ANY process, also a replay's
@@ -718,6 +729,9 @@ func execConcurrent(n *Node, sc *Scenario) *Violation {
 		}
 		ref := &refs[i]
 		same := fr.ErrNil == (ref.Err == nil) && (ref.Err != nil || (fr.OutLen == len(ref.Out) && fr.OutHash == hashOut(ref.Out))) && fr.FileHash == ref.FileHash
+		if same && ref.Err != nil && normErrText(fr.ErrText) != normErrText(ref.Err.Error()) {
+			same = false
+		}
 		if !same {
 			return &Violation{Class: "nondeterministic-output", Signature: "nondeterministic|history|" + ts.Op,
 				Detail: fmt.Sprintf("%s (mask %05b, combined=%v) returns a different result after earlier calls in the same process than as the first call of a fresh process (%d vs %d bytes, err %v vs nil=%v)", ts.Op, ts.Mask, ts.Combined, len(ref.Out), fr.OutLen, ref.Err, fr.ErrNil),
@@ -893,6 +907,16 @@ func keysOf(m map[int]bool) []int {
 	return out
 }
 
+// semanticErrors are appended to a valid schema: each has more than one place an error
+// could be reported for.
+var semanticErrors = []string{
+	"struct SeA { SeB b; }\nstruct SeB { SeC c; }\nstruct SeC { SeA a; }\nstruct SeD { SeD d; }\nstruct SeE { SeF f; }\nstruct SeF { SeE e; }\n",
+	"struct SeX { Ghost1 g; Ghost2 h; }\nstruct SeY { Ghost3 g; }\nmessage SeZ { 1 -> Ghost4 g; 2 -> Ghost5 h; }\n",
+	"struct SeDup { int32 a; }\nstruct SeDup { int32 b; }\nstruct SeDup2 { }\nstruct SeDup2 { }\n",
+	"enum SeEn { A = 1; B = 1; C = 2; D = 2; }\nenum SeEn2 : uint8 { X = 300; Y = 301; }\n",
+	"[opcode(\"abcd\")]\nstruct SeOp1 { int32 a; }\n[opcode(\"abcd\")]\nstruct SeOp2 { int32 a; }\n[opcode(\"abcd\")]\nmessage SeOp3 { 1 -> int32 a; }\n",
+}
+
 func compareResult(phase string, ts TaskSpec, ref, got *taskResult) *Violation {
 	facts := map[string]string{"op": ts.Op, "phase": phase}
 	if got.Panic != "" {
@@ -902,8 +926,9 @@ func compareResult(phase string, ts TaskSpec, ref, got *taskResult) *Violation {
 		return &Violation{Class: "nondeterministic-output", Signature: "nondeterministic|" + phase + "|" + ts.Op + "|error",
 			Detail: fmt.Sprintf("%s alone: err=%v; %s: err=%v", ts.Op, ref.Err, phase, got.Err), Facts: facts}
 	}
-	if ts.Op == "readfile" && ref.Err != nil && got.Err != nil && ref.Err.Error() != got.Err.Error() {
-		return &Violation{Class: "nondeterministic-output", Signature: "nondeterministic|" + phase + "|readfile|error-text", Detail: fmt.Sprintf("%q vs %q", ref.Err, got.Err), Facts: facts}
+	if ref.Err != nil && got.Err != nil && ref.Err.Error() != got.Err.Error() {
+		return &Violation{Class: "nondeterministic-output", Signature: "nondeterministic|" + phase + "|" + ts.Op + "|error-text",
+			Detail: fmt.Sprintf("%s alone reports %q; %s: %q", ts.Op, clipStr(ref.Err.Error(), 200), phase, clipStr(got.Err.Error(), 200)), Facts: facts}
 	}
 	if ref.Err == nil && !bytes.Equal(ref.Out, got.Out) {
 		at := firstDiff(ref.Out, got.Out)
@@ -1020,6 +1045,17 @@ type oneshotRes struct {
 	FileHash uint64 `json:"file"`
 	Panic    string `json:"panic,omitempty"`
 }
+
+// normErrText removes the scratch directory of the process from an error text (import
+// paths are reported in full).
+func normErrText(s string) string {
+	if c14ws != nil {
+		s = strings.ReplaceAll(s, c14ws.dir, "<ws>")
+	}
+	return reWsDir.ReplaceAllString(s, "<ws>")
+}
+
+var reWsDir = regexp.MustCompile(`/[^ :"]*verif-c14-[^/ :"]*`)
 
 func hashOut(b []byte) string {
 	h := fnv.New64a()
